@@ -189,6 +189,7 @@ def build_arm(name, seed=0):
     c.S = se3.adj(B) @ d["S"]
     c.Ml = np.array(Ml)
     c.Gl = G
+    c.masses = masses.copy()
     c.lo, c.hi = lo, hi
     return c
 
